@@ -18,7 +18,7 @@ import joblib.externals.loky.backend.queues, multiprocessing.queues, concurrent.
 
 PROP = "C10"
 LEVEL = "exploration"
-TIMEOUT_S = 240.0
+TIMEOUT_S = 600.0
 RULE = ("one run = Parallel(backend='loky', n_jobs 2..4, batch_size 1/2/auto) x 1-4 consecutive calls (managed or not) of "
         "1-8 tasks with results of 10 B / 3 KB / 100 KB (larger than the pipe capacity) x kill plan: 0-2 kills, victim = "
         "the worker that reaches the k-th yield point of a chosen kind (pipe write = sending a result, pipe read = "
